@@ -82,27 +82,33 @@ def accept2 (cfg : Cfg) (s : St2) : Ev2 → Option St2
     | some b => some { base := b, owed := owedStep s.base b s.owed e }
     | none => none
   | .markFail m c pos =>
+    -- `markdone` is called only for a record whose mark is due: a failing call is the failure to write a due mark, and only
+    -- that record is excused.  (A mark is due only after a report was read, i.e. outside the crash window: the base state is
+    -- left as it is.)
     match recAt s.base m c pos with
-    | some idx => some { s with owed := dropRec s.owed (m, c, idx) }    -- only the record whose mark failed is excused
-    | none => some s
+    | some idx => if s.owed.contains (m, c, idx) then some { s with owed := dropRec s.owed (m, c, idx) } else none
+    | none => none
   | .cleanRestart =>
-    -- qmail-send exits 0 after TERM only when no delivery is in flight (`del_canexit`: it waits for every outstanding report)
+    -- qmail-send exits 0 after TERM only when no delivery is in flight (`del_canexit`: it waits for every outstanding report).
+    -- For the base monitor the daemon is gone and starts again (`.restart`), but this is no crash: no crash-damage event may
+    -- follow (`St.calm`: the crash window the base `.restart` opens is closed at once)
     if s.base.slots.isEmpty then
       match accept cfg s.base .restart with
-      | some b => some { s with base := b }
+      | some b => some { s with base := b.calm }
       | none => none
     else none
 
 /-- the record is finished as far as the daemon can know: its mark is on disk, or its final report was handled -/
 def Fin2 (s : St2) (x : Nat × Ch × Nat) : Prop := x ∈ s.owed ∨ markedDone s.base x = true
 
-/-- the events after which a finished record may legitimately be attempted again: a crash, a failing `markdone`, a machine
-crash that reverted marks of the file or garbled the files being preprocessed — unless the mark is on disk —, and the end of
-the record's life (its file is unlinked; the message number starts a new life) -/
+/-- the events after which a finished record may legitimately be attempted again: a crash or a failing `markdone` while the
+mark is not on disk; a machine crash that reverted THIS record's mark (`crashMarks` with the record's own byte back to `T` — a
+`crashMarks` that kept the byte is no excuse) or garbled the files being preprocessed; and the end of the record's life (its
+file is unlinked; the message number starts a new life) -/
 def excuse (s : St2) (x : Nat × Ch × Nat) : Ev2 → Bool
   | .ev .restart => !markedDone s.base x
   | .markFail m c pos => m == x.1 && c == x.2.1 && recAt s.base m c pos == some x.2.2 && !markedDone s.base x
-  | .ev (.crashMarks m c _) => m == x.1 && c == x.2.1
+  | .ev (.crashMarks m c marks) => m == x.1 && c == x.2.1 && !(marks.getD x.2.2 false)
   | .ev (.unlinkChan m c) => m == x.1 && c == x.2.1
   | .ev (.crashTodoFiles m) => m == x.1
   | .ev (.cUnlinkTodo m) => m == x.1
